@@ -4,6 +4,7 @@ import FxVerif.Proofs.C05Ext
 import FxVerif.Proofs.C05Orig
 import FxVerif.Proofs.C05Sol
 import FxVerif.Proofs.C05Marks
+import FxVerif.Proofs.C06Vote
 /-!
 # C05 — every outgoing transfer is in exactly one place and is settled exactly once
 
@@ -793,5 +794,47 @@ example : ∃ ops : List Op, let s := run (init 1 [((0, 0), 100)] {}) ops
            .reqBatch 0 1 0 "0x0000000000000000000000000000000000000002",
            .send 0 "0x0000000000000000000000000000000000000001" 0 5 1], ?_⟩
   decide
+
+/-! ## round 5: the same with the oracles' votes inside the history (`Model/C06Vote.lean`) -/
+
+section votes
+open FxVerif.Model.C06Vote FxVerif.Proofs.C06Vote
+
+/-- **exactly one place, settled exactly once — for voted histories.**  From an initial state, for any number of
+oracles with any powers and any recorded total, after any list of user operations and single claims of the oracles
+(reporting whatever heights and events, in any order, completing quorums or not): every transfer id and bridge-call nonce
+ever issued is in exactly one place, ids are fresh, each is settled at most once, and no transfer is both executed and
+refunded.  (The C05 state of a voted history is `run` of its trace — `vrun_base` — so `ids_fresh`, `partition`,
+`settled_once`, `executed_never_refunded` apply.) -/
+theorem exactly_one_place_settled_once_voted (b0 : State) (h0 : IsInit b0) (powers : List Nat) (total : Nat)
+    (ops : List VOp) :
+    let s := (vrun (vinit b0 powers total) ops).base
+    (∀ id, 1 ≤ id → id < s.nextTxId → count id (allTxIds s) = 1) ∧
+    (∀ n, 1 ≤ n → n < s.nextCallId → count n (allCallIds s) = 1) ∧
+    s.nextTxId ∉ allTxIds s ∧ s.nextCallId ∉ allCallIds s ∧
+    (settledTxIds s.settled).Nodup ∧ (settledCallIds s.settled).Nodup ∧
+    (∀ e1 ∈ s.settled, ∀ e2 ∈ s.settled, e1.isCall = false → e2.isCall = false → e1.id = e2.id →
+      e1.how = .executed → e2.how = .refunded → False) := by
+  intro s
+  have hs : s = run b0 (trace (vinit b0 powers total) ops) := vrun_base _ ops _
+  rw [hs]
+  have p := partition b0 h0 (trace (vinit b0 powers total) ops)
+  have f := ids_fresh b0 h0 (trace (vinit b0 powers total) ops)
+  have so := settled_once b0 h0 (trace (vinit b0 powers total) ops)
+  exact ⟨p.1, p.2.2.1, f.2.1, f.2.2.2, so.1, so.2,
+    fun e1 h1 e2 h2 c1 c2 hid hx hr => executed_never_refunded b0 h0 _ e1 e2 h1 h2 c1 c2 hid hx hr⟩
+
+/-- non-vacuity: a voted history in which a batch is executed by the votes of two of three oracles while the third
+reports another height: transfer 1 is settled (executed), transfer 2 is still in the pool -/
+example :
+    let s := (vrun (vinit (init 1 [((0, 0), 100)] {}) [400, 300, 300] 1000)
+      [.vote 0 1 1000 .other, .vote 1 1 1000 .other, .vote 2 1 1000 .other,
+       .base (.send 0 "0x0000000000000000000000000000000000000001" 0 5 2),
+       .base (.reqBatch 0 1 0 "0x0000000000000000000000000000000000000002"),
+       .base (.send 0 "0x0000000000000000000000000000000000000001" 0 7 1),
+       .vote 0 2 3000 (.batch 0 1), .vote 1 2 9999 (.batch 0 1), .vote 2 2 3000 (.batch 0 1)]).base
+    settledTxIds s.settled = [1] ∧ s.pool.map (·.id) = [2] ∧ s.batches = [] ∧ s.obsExt = 3000 := by decide
+
+end votes
 
 end FxVerif.Props.C05
